@@ -79,6 +79,9 @@ type family struct {
 	extra func(g *peg.Grammar, b *core.Built, in []byte, o *rtapi.RunOpts, ref *peg.Result, obs *rtapi.Obs) []string
 	// refOpts lets a check adjust the reference options.
 	refOpts func(o *peg.Options)
+	// confEvery: every confEvery-th grammar of this shard is also replayed
+	// on a really compiled parser (at most confQuota per shard).
+	confEvery, confQuota int
 }
 
 // buildOrCount builds the grammar; it returns nil when the tool rejected it
@@ -116,10 +119,19 @@ func runGrammar(c *ShardCtx, g *peg.Grammar, f *family) {
 		hasState        bool
 	}
 	refs := map[refKey]*peg.Result{}
-	for _, gen := range f.gens {
+	c.Res.confSeen++
+	confGen := -1
+	if f.confEvery > 0 && c.Res.confSeen%f.confEvery == 1 && len(c.Res.Conf) < f.confQuota {
+		confGen = len(c.Res.Conf) % len(f.gens)
+	}
+	for gi, gen := range f.gens {
 		b := buildOrCount(c, text, gen)
 		if b == nil {
 			continue
+		}
+		var conf *ConfCase
+		if gi == confGen {
+			conf = &ConfCase{Text: text, Gen: gen, HasState: b.Flags.HasState(), HasMemo: b.Flags.HasMemo(), Why: "systematic sample"}
 		}
 		for ii, in := range f.inputs {
 			pt := peg.NewPosTable(in)
@@ -142,6 +154,9 @@ func runGrammar(c *ShardCtx, g *peg.Grammar, f *family) {
 					oo := o
 					obs := b.Run(in, &oo, script)
 					c.Res.Evaluations++
+					if conf != nil && !obs.Diverged && len(conf.Runs) < 40 {
+						conf.Runs = append(conf.Runs, ConfRun{Input: in, Opts: oo, Script: script, Obs: obs})
+					}
 					co := f.cmp
 					co.MaxExpr = o.MaxExpr
 					diffs, skipped := core.Compare(ref, obs, pt, o.Filename, co)
@@ -166,9 +181,16 @@ func runGrammar(c *ShardCtx, g *peg.Grammar, f *family) {
 						continue
 					}
 					v := Violation{Desc: diffs[0], Grammar: text, Gen: gen.String(), Input: string(in), InputHex: hexOf(in), Opts: optsString(&o) + " " + scriptString(script), Diffs: diffs}
-					c.Report(v, explainByQuirk(c, g, in, script, ro, obs, pt, o.Filename, co, f, b, &oo))
+					var vc *ConfCase
+					if !obs.Diverged {
+						vc = &ConfCase{Text: text, Gen: gen, HasState: b.Flags.HasState(), HasMemo: b.Flags.HasMemo(), Runs: []ConfRun{{Input: in, Opts: oo, Script: script, Obs: obs}}}
+					}
+					c.Report(v, explainByQuirk(c, g, in, script, ro, obs, pt, o.Filename, co, f, b, &oo), vc)
 				}
 			}
+		}
+		if conf != nil && len(conf.Runs) > 0 {
+			c.Res.Conf = append(c.Res.Conf, *conf)
 		}
 	}
 }
